@@ -74,7 +74,7 @@ StructMin(t) == SumSeq([j \in DOMAIN t.cols |-> Pad(t.cols[j]) + ColMin(t.cols[j
 ColOK(c) == /\ c.cmin \in 1..2 /\ c.cmax >= c.cmin /\ c.padl >= 0 /\ c.padr >= 0 /\ c.spad >= Pad(c)
             /\ c.w = 0 \/ c.w >= Need(c)
             /\ c.maxw = 0 \/ (c.maxw >= Need(c) /\ c.maxw >= c.minw)
-            /\ c.ratio = -1 \/ c.ratio >= 1
+            /\ c.ratio >= -1                        \* 0 is a ratio: a flexible column that asks for no share (Table.tla)
 InScope(t, avail) == /\ Len(t.cols) >= 1
                      /\ \A j \in DOMAIN t.cols : ColOK(t.cols[j])
                      /\ avail >= StructMin(t)
